@@ -5,6 +5,7 @@ Every step is a dict {"op": ...}.  Steps refer to existing objects by late-bound
 (`fi` = index modulo the number of current files of that disk), so that removing steps
 while shrinking keeps a program meaningful."""
 import os
+import shutil
 import random
 import stat
 
@@ -230,6 +231,22 @@ class World(object):
             self.trash.append((d, rel, self.read_file(d, rel), self.mtime_ns(d, rel)))
             os.unlink(self.full(d, rel))
             ev = ("delete", d, rel)
+        elif op == "empty_disk":
+            # everything on the disk goes (a disk replaced by an empty one); content copies kept on it stay
+            top = self.ddir(d)
+            n = 0
+            for rel in self.list_files(d):
+                self.trash.append((d, rel, self.read_file(d, rel), self.mtime_ns(d, rel)))
+            for name in os.listdir(top):
+                if name.startswith(RESERVED_PREFIX) or name.endswith(b".lock") or name.endswith(b".tmp"):
+                    continue
+                full = os.path.join(top, name)
+                if os.path.islink(full) or not os.path.isdir(full):
+                    os.unlink(full)
+                else:
+                    shutil.rmtree(full)
+                n += 1
+            ev = ("empty_disk", d, n) if n else None
         elif op == "undelete":
             # restore a previously deleted file with identical bytes (from a backup): new or preserved time-stamp
             if not self.trash:
